@@ -68,6 +68,38 @@ def jsonable(o):
     return repr(o)
 
 
+def _same_result(ps, a, b):
+    """bit-level comparison of two results of the same call (NaN == NaN)"""
+    if isinstance(a, ps.SpikeTrain) and isinstance(b, ps.SpikeTrain):
+        return None if (np.array_equal(a.spikes, b.spikes) and a.t_start == b.t_start and a.t_end == b.t_end) else "spike trains differ"
+    for cls, names in ((ps.PieceWiseConstFunc, ("x", "y")), (ps.PieceWiseLinFunc, ("x", "y1", "y2")), (ps.DiscreteFunc, ("x", "y", "mp"))):
+        if isinstance(a, cls):
+            if not isinstance(b, cls):
+                return "type differs"
+            for n in names:
+                u, v = np.asarray(getattr(a, n)), np.asarray(getattr(b, n))
+                if cls is ps.DiscreteFunc and n != "x":
+                    u, v = u[1:-1], v[1:-1]      # edge entries carry no meaning
+                if u.shape != v.shape or not np.array_equal(u, v, equal_nan=True):
+                    return "%s differs: %s vs %s" % (n, short(u.tolist()), short(v.tolist()))
+            return None
+    if isinstance(a, (list, tuple)):
+        if not isinstance(b, (list, tuple)) or len(a) != len(b):
+            return "sequence length differs"
+        for k, (u, v) in enumerate(zip(a, b)):
+            d = _same_result(ps, u, v)
+            if d:
+                return "[%d] %s" % (k, d)
+        return None
+    try:
+        u, v = np.asarray(a, dtype=float), np.asarray(b, dtype=float)
+    except Exception:
+        return None
+    if u.shape != v.shape or not np.array_equal(u, v, equal_nan=True):
+        return "%s vs %s" % (short(u.tolist()), short(v.tolist()))
+    return None
+
+
 class Ctx(object):
     def __init__(self, prop_id, config, tier, seed, worker=0):
         self.prop_id = prop_id
@@ -85,6 +117,7 @@ class Ctx(object):
         self.cut_exceptions = 0
         self.guard_checks = 0
         self.readonly_calls = 0
+        self.repeat_checks = 0
         self.case = None
         self.case_index = -1
         self.inconclusive = []
@@ -194,6 +227,7 @@ class Ctx(object):
         allow = kw.pop("_allow", ())
         skip_first = kw.pop("_mutates_self", False)
         readonly = kw.pop("_readonly", None)
+        repeat = kw.pop("_repeat", True)
         guard_objs = list(args) + list(kw.values())
         if getattr(fn, "__self__", None) is not None and not skip_first:
             guard_objs.append(fn.__self__)
@@ -228,6 +262,20 @@ class Ctx(object):
             for a in frozen:
                 a.flags.writeable = True
         self._check_snap(snaps, name, skip_first=False)
+        # M7 repeat monitor: every 13th call is issued a second time with the same arguments; the result must be the
+        # same (state leaking between calls, caches keyed on the wrong thing, uninitialised memory all show up here)
+        if repeat and self.cut_calls % 13 == 0 and not isinstance(res, BaseException):
+            try:
+                with contextlib.redirect_stdout(env.SINK):
+                    res2 = fn(*args, **kw)
+                self.repeat_checks += 1
+                d = _same_result(self.ps, res, res2)
+                if d:
+                    self.violation("result-changes-on-repeat:%s" % name, "%s called twice with the same arguments gives different results: %s" % (name, d))
+            except (CaseTimeout, LineBudgetExceeded, KeyboardInterrupt):
+                raise
+            except BaseException as e:
+                self.violation("exception-on-repeat:%s:%s" % (name, type(e).__name__), "%s raised %r when called a second time with the same arguments" % (name, e))
         return res
 
     def mcall(self, obj, meth, *args, **kw):
@@ -351,7 +399,7 @@ def worker_result(prop, ctx, info, wall):
     return {
         "property": ctx.prop_id, "config": ctx.config, "tier": ctx.tier, "seed": ctx.seed, "worker": ctx.worker,
         "evaluations": ctx.evals, "cut_calls": ctx.cut_calls, "cut_exceptions": ctx.cut_exceptions,
-        "guard_checks": ctx.guard_checks, "readonly_calls": ctx.readonly_calls,
+        "guard_checks": ctx.guard_checks, "readonly_calls": ctx.readonly_calls, "repeat_checks": ctx.repeat_checks,
         "words": sorted(ctx.words), "counters": dict(ctx.counters), "violations": ctx.violations,
         "samples": ctx.samples, "inconclusive": ctx.inconclusive, "truncated": info.get("truncated", False),
         "contracts": monitors.evaluation_counts(), "stdout_suppressed": env.SINK.n, "wall_s": wall,
